@@ -41,7 +41,8 @@ Unaries == UNION {
             IF "pp" \in Fams THEN {<<"pp", a>> : a \in Pos} ELSE {},
             IF "r1" \in Fams THEN {<<"r1", I>> : I \in RIntervals} ELSE {},
             IF "r2" \in Fams THEN {<<"r2", R>> : R \in R2Rects} ELSE {},
-            IF "rc" \in Fams THEN {<<"rc", R>> : R \in Pick(RcRects, AIdxRc)} ELSE {} }
+            \* the empty and the full rectangle are always first operands
+            IF "rc" \in Fams THEN {<<"rc", R>> : R \in Pick(RcRects, AIdxRc) \cup {RcEmpty, RcFull}} ELSE {} }
 USeq == SetToSeq(Unaries)
 Init == t \in {<<"root", r, 0, 0>> : r \in 1..NRoot}
 Next == \/ /\ Len(t) = 4
@@ -193,6 +194,10 @@ RcUnary == F = "rc" /\ Un =>
               /\ RcValid(R)
               /\ (ml >= 0 /\ mg >= 0 => RcSet(A) \subseteq RcSet(R))
               /\ (ml <= 0 /\ mg <= 0 => RcSet(R) \subseteq RcSet(A))
+    /\ \A p \in RcProbes : RcValidProbe(p) /\ p[2] % 2 = 0 =>
+          /\ \A q \in QReps(p[2]) : NormQ(q) = p[2]
+          /\ RcValid(RcFromLatLng(p)) /\ p \in RcSet(RcFromLatLng(p))
+          /\ RcAddPoint(RcEmpty, p) = {RcFromLatLng(p)}
     /\ \A p \in RcProbes : RcValidProbe(p) =>
           \A R \in RcAddPoint(A, p) : RcValid(R) /\ p \in RcSet(R) /\ RcSet(A) \subseteq RcSet(R)
 RcBinary == F = "rc" /\ Bin =>
@@ -267,7 +272,8 @@ CaseRcU ==
      polar |-> RcPolarClosure(A),
      pts |-> [k \in 1..Len(RcPSeq) |->
                 LET p == RcPSeq[k] IN
-                [p |-> p, mem |-> p \in RcSet(A), v |-> RcValidProbe(p),
+                [p |-> p, mem |-> p \in RcSet(A), v |-> RcValidProbe(p), reps |-> QReps(p[2]),
+                 pr |-> IF RcValidProbe(p) /\ p[2] % 2 = 0 THEN RcFromLatLng(p) ELSE RcEmpty,
                  addp |-> IF ~RcValidProbe(p) THEN {A} ELSE IF p[2] % 2 = 0 THEN RcAddPoint(A, p) ELSE {}]],
      exp |-> [k \in 1..Len(RcMSeq) |->
                 LET e == RcExpanded(A, RcMSeq[k][1], RcMSeq[k][2])
